@@ -285,7 +285,12 @@ class RefEd:
                 if self.lenient:
                     raise Reject()
                 raise KeyError('unknown mark used')
-            n = [i for i, l in enumerate(self.lines) if l[0] == m][0] + 1
+            at = [i for i, l in enumerate(self.lines) if l[0] == m]
+            if not at:              # the marked line itself is gone (deleted by an executed register): where the mark went is not modelled
+                if self.lenient:
+                    raise Reject()
+                raise KeyError('mark of a removed line used')
+            n = at[0] + 1
         else:
             step = 1 if b[0] == '/' else -1
             r = self.find(b[1], self.cur + step, step)
